@@ -5,6 +5,7 @@ use crate::report::{parallel, Report};
 pub fn run(prop: &str, tier: &str, seed: u64, workers: usize) -> Report {
     let thorough = tier == "thorough";
     let (n_general, n_text, n_map, n_arr, n_typing) = if thorough { (6000, 4000, 3000, 2000, 6000) } else { (2500, 1500, 800, 600, 2000) };
+    let n_adl: u64 = if thorough { 20000 } else { 4000 };
     let props: Vec<&str> = match prop { "C01" => vec!["C01"], "C02" => vec!["C02"], "C04" => vec!["C04"], "C05" => vec!["C05"], _ => vec![] };
     let mut total = parallel(workers, |w, nw| {
         let mut rep = Report::default();
@@ -16,6 +17,8 @@ pub fn run(prop: &str, tier: &str, seed: u64, workers: usize) -> Report {
         run_many(&mut rep, seed, 103, n_map, w, nw, &m, &props);
         let a = HistCfg { focus: Focus::ArrayOnly, max_steps: 10, max_replicas: 3, exhaustive_perms: true, model: true };
         run_many(&mut rep, seed, 104, n_arr, w, nw, &a, &props);
+        // C01 only: delete sets applied to real stores (holes included) against the transcription of apply_delete
+        if prop == "C01" { let mut md = crate::model::Model::spawn(); for ci in 0..n_adl { if ci as usize % nw == w { if let Err(e) = crate::report::catch(std::panic::AssertUnwindSafe(|| crate::adl::case(seed, ci, &mut md, &mut rep))) { rep.fail(serde_json::json!({"property": "C01", "class": "panic", "error": e, "case": {"stream": 130, "index": ci, "seed": seed}})); md = crate::model::Model::spawn(); } } } }
         let ty = HistCfg { focus: Focus::Typing, max_steps: 16, max_replicas: 3, exhaustive_perms: true, model: true };
         run_many(&mut rep, seed, 105, n_typing, w, nw, &ty, &props);
         rep
